@@ -550,7 +550,7 @@ fn minimise(p: &Value, class: &str, w: &World, cfg: &Cfg, slot: usize, budget: u
         try_plan(c, &mut best, &mut attempts);
     }
     if best["script"]["kind"] == "reply" {
-        for (k, val) in [("interim_100", json!(false)), ("http10", json!(false)), ("segments", json!(1)), ("extra_headers", json!([])), ("suffix", json!("")), ("content_type", json!("application/json")), ("framing", json!("cl")), ("rst", json!(false)), ("chunk_ext", json!(false)), ("trailers", json!(false)), ("odd_case", json!(false)), ("cl_delta", json!(0)), ("cut", Value::Null)] {
+        for (k, val) in [("interim_100", json!(false)), ("http10", json!(false)), ("segments", json!(1)), ("extra_headers", json!([])), ("suffix", json!("")), ("content_type", json!("application/json")), ("framing", json!("cl")), ("rst", json!(false)), ("chunk_ext", json!(false)), ("trailers", json!(false)), ("odd_case", json!(false)), ("delay_ms", json!(0)), ("cl_delta", json!(0)), ("cut", Value::Null)] {
             let mut c = best.clone();
             c["script"][k] = val;
             try_plan(c, &mut best, &mut attempts);
@@ -664,6 +664,9 @@ fn absorb(a: &mut Agg, sub: u64, p: &Value, o: &Outcome) {
     }
     if o.class.contains("-rst") && o.bucket == "in-body" {
         bump(&mut a.probes, "rst_mid_body");
+    }
+    if o.class.starts_with("slow/") {
+        bump(&mut a.probes, "slow_but_live_server_reply");
     }
     if o.class.contains("cut-chunked") {
         bump(&mut a.probes, "chunked_reply_cut");
